@@ -51,6 +51,7 @@ class Run:
         self.args = case["args"]
         self.n = len(self.args)
         self.events = []
+        self.fevents = []
         self.call_applies = 0
         self.fault_at = 0
         self.consts = {}
@@ -135,17 +136,30 @@ class Run:
         # forward mode: alias -> the tangent object itself, otherwise w * tangent
         japi = (self.case.get("api", 0) + 2 * k) % 3
 
+        def flog(j, g):
+            gv = onp.asarray(g)
+            run.fevents.append({"n": k, "j": j + 1, "g": to_int(gv[0]), "g2": to_int(gv[1])})
+
         def jrule(j):
             kd = slots[j]["kd"]
-            return (lambda g, ans, *a: g) if kd == "alias" else (lambda g, ans, *a: ws[j] * g)
+
+            def rule(g, ans, *a):
+                flog(j, g)
+                return g if kd == "alias" else ws[j] * g
+            return rule
+
+        def jone(argnum, g, ans, a, kw):
+            flog(argnum, g)
+            return g if slots[argnum]["kd"] == "alias" else ws[argnum] * g
         if japi == 0:
             defjvp(lin, *[jrule(j) for j in range(len(slots))])
         elif japi == 1:
-            defjvp_argnum(lin, lambda argnum, g, ans, a, kw: g if slots[argnum]["kd"] == "alias" else ws[argnum] * g)
+            defjvp_argnum(lin, jone)
         else:
             def jall(argnums, gs, ans, a, kw):
                 tot = None
                 for i, g in zip(argnums, gs):
+                    flog(i, g)
                     t = g if slots[i]["kd"] == "alias" else ws[i] * g
                     tot = t if tot is None else tot + t
                 return tot
@@ -200,6 +214,7 @@ class Run:
         except Exception as ex:     # noqa
             out["events"] = [{"e": "error", "where": "trace", "type": type(ex).__name__, "msg": str(ex)[:200]}]
             out["jvp"], out["jvp2"], out["val"] = 0, 0, 0
+            out["fevents"], out["fwd_intact"] = [], False
             return out
         out["val"] = to_int(onp.asarray(val)[0])
         out["stages"] = self.stages
@@ -232,14 +247,17 @@ class Run:
         self.fault_at = 0
         out["events"] = self.events
         # forward mode on the same program: same Jacobian
+        self.fevents = []
         try:
             v = frozen([1.0, 2.0])
             pv, t = make_jvp(self.fun)(x)(v)
+            out["fevents"] = list(self.fevents)
             t = onp.asarray(t)
             out["jvp"], out["jvp2"] = to_int(t[0]), to_int(t[1])
             out["fwd_intact"] = bool(onp.array_equal(v, [1.0, 2.0]) and onp.array_equal(x, snap_x))
         except Exception as ex:     # noqa
             out["jvp"], out["jvp2"], out["fwd_intact"] = -1, -1, False
+            out["fevents"] = list(self.fevents)
             out["fwd_error"] = type(ex).__name__ + ": " + str(ex)[:200]
         # one closure mapped over a whole basis (differential_operators.jacobian)
         if self.case.get("jac"):
